@@ -195,6 +195,9 @@ func constArgs(r *core.Run, f *ssa.Function, argTerm string, depth int) ([]strin
 		var out []string
 		n := 0
 		for _, caller := range r.P.CG.In[f] {
+			if !r.ConsensusFuncs()[caller] {
+				continue // wrappers and query-only callers
+			}
 			for _, s := range r.P.CG.Sites[caller] {
 				for _, c := range s.Callees {
 					if c != f {
